@@ -112,7 +112,8 @@ def check_compress(case, rec):
     if L >= 2:
         cut = 1 if mode == 'left' else L - 1
         s = schmidt_values(vn, d, L, cut)
-        s = s[s > 0]
+        # exact zeros stay in the list: at tol = 0 their cumulative weight 0 sits on the threshold (rounding noise of the
+        # implementation's SVD may or may not be kept)
         c = np.cumsum(np.sort(s ** 2) / np.sum(s ** 2))
         keep_hi = int(np.sum(c > tol - 1e-10))
         keep_lo = int(np.sum(c > tol + 1e-10))
@@ -159,7 +160,7 @@ def check_from_vector_tol(case, rec):
     require(all(a <= b for a, b in zip(D, exact_D)), 'bond dimension exceeds the Schmidt bound', D=D)
     # the first bond keeps exactly the values prescribed by the rule
     if n >= 2:
-        s = schmidt_values(v / nv, d, n, 1); s = s[s > 0]
+        s = schmidt_values(v / nv, d, n, 1)
         c = np.cumsum(np.sort(s ** 2) / np.sum(s ** 2))
         hi = int(np.sum(c > tol - 1e-10)); lo = int(np.sum(c > tol + 1e-10))
         noise = int(np.sum(np.sort(s ** 2) / np.sum(s ** 2) < 1e-28))
